@@ -851,6 +851,13 @@ func (w *World) classifyRoot(r *Report, rule, key string, fn *ssa.Function, in s
 			r.ok(rule, key, pos, "build-time write through parameter "+x.Name()+" (objects of one Compile call)")
 			return
 		}
+		// a helper that fills an object its callers made: every call site passes,
+		// in this position, a value rooted only at objects freshly made in the
+		// caller's own activation (or nil)
+		if ok, why := w.paramAlwaysFresh(x, 0); ok {
+			r.ok(rule, key, pos, "write through parameter "+x.Name()+": "+why)
+			return
+		}
 		r.undec(rule, key, pos, fmt.Sprintf("run-time write through non-receiver parameter %s of %s", x.Name(), fnName(owner)))
 	case *ssa.FreeVar:
 		r.undec(rule, key, pos, "write through unresolved free variable "+x.Name())
@@ -1366,4 +1373,56 @@ func (w *World) assertGuard(fn *ssa.Function, blk *ssa.BasicBlock, p ssa.Value) 
 		}
 	}
 	return nil
+}
+
+// paramAlwaysFresh: at every call site of p's function the argument for p is
+// rooted only at objects made in the calling activation (make, new, composite
+// literal, nil) — or at a parameter of the caller for which the same holds.
+func (w *World) paramAlwaysFresh(p *ssa.Parameter, depth int) (bool, string) {
+	if depth > 3 {
+		return false, ""
+	}
+	fn := p.Parent()
+	idx := -1
+	for i, q := range fn.Params {
+		if q == p {
+			idx = i
+		}
+	}
+	node := w.CG.Nodes[fn]
+	if idx < 0 || node == nil || len(node.In) == 0 {
+		return false, ""
+	}
+	n := 0
+	for _, e := range node.In {
+		site := e.Site
+		if site == nil {
+			return false, ""
+		}
+		args := site.Common().Args
+		off := 0
+		if site.Common().IsInvoke() {
+			off = 1
+		}
+		if idx-off < 0 || idx-off >= len(args) {
+			return false, ""
+		}
+		for _, root := range addrRoots(args[idx-off]) {
+			switch x := root.(type) {
+			case *ssa.MakeMap, *ssa.MakeSlice, *ssa.Const:
+			case *ssa.Alloc:
+				if x.Parent() != site.Parent() && !w.sameTree(x.Parent(), site.Parent()) {
+					return false, ""
+				}
+			case *ssa.Parameter:
+				if ok, _ := w.paramAlwaysFresh(x, depth+1); !ok {
+					return false, ""
+				}
+			default:
+				return false, ""
+			}
+		}
+		n++
+	}
+	return true, fmt.Sprintf("at all %d call sites the argument is an object made by the caller for this evaluation", n)
 }
